@@ -427,17 +427,146 @@ fn run_rec(plan: &RecPlan, fp: u64) -> CaseOut {
     CaseOut { verdict: Verdict::Pass, nontrivial: n >= 2, labels, fingerprint: fp, execs: 1 }
 }
 
+// ---------------------------------------------------------------------------------------------
+// third family: many small modules (one function with one top-level card each), so that the
+// first card of a function directly follows the implicit return of a function of another module
+// with the same card index; namespaces of the trace entries are what is at stake
+// ---------------------------------------------------------------------------------------------
+
+#[derive(Debug, Clone)]
+struct ModPlan {
+    program: Program,
+    /// 0 = missing native, 1 = read of a never-set variable, 2 = unresolvable call (compile error)
+    fault: usize,
+    expected: Vec<Loc>,
+}
+
+fn decode_mods(c: &mut Choices) -> ModPlan {
+    // module paths in the order the module tree lists them
+    let tops: Vec<&str> = match c.draw(3) {
+        0 => vec!["a", "b", "c"],
+        1 => vec!["b", "a", "c"],
+        _ => vec!["c", "b", "a"],
+    };
+    let mut paths: Vec<Vec<String>> = vec![];
+    for t in &tops {
+        paths.push(vec![t.to_string()]);
+        if *t != "c" {
+            paths.push(vec![t.to_string(), "x".to_string()]);
+        }
+    }
+    // the call chain visits 1..4 distinct modules
+    let len = 1 + c.draw(4);
+    let mut pool: Vec<usize> = (0..paths.len()).collect();
+    let mut chain: Vec<usize> = vec![];
+    for _ in 0..len {
+        let k = c.draw(pool.len());
+        chain.push(pool.remove(k));
+    }
+    let fault = c.draw(3);
+    let name_of = |p: &Vec<String>| format!("{}.f", p.join("."));
+    let mut funcs = vec![FuncDef {
+        id: 0,
+        name: "main".into(),
+        module: vec![],
+        params: vec![],
+        body: vec![log_stmt(int(7770)), Stmt::ExprStmt(Expr::Call(name_of(&paths[chain[0]]), 1 + chain[0], vec![])), log_stmt(int(9))],
+    }];
+    for (k, p) in paths.iter().enumerate() {
+        let card = match chain.iter().position(|x| *x == k) {
+            Some(pos) if pos + 1 < chain.len() => Expr::Call(name_of(&paths[chain[pos + 1]]), 1 + chain[pos + 1], vec![]),
+            Some(_) => match fault {
+                0 => Expr::CallNative("nope".into(), vec![]),
+                1 => Expr::Var("unset777".into()),
+                _ => Expr::Call("nosuch777".into(), usize::MAX, vec![]),
+            },
+            None => int(1),
+        };
+        funcs.push(FuncDef { id: 1 + k, name: "f".into(), module: p.clone(), params: vec![], body: vec![Stmt::ExprStmt(card)] });
+    }
+    let mut root = ModuleDef { name: String::new(), functions: vec![0], submodules: vec![], imports: vec![] };
+    for t in &tops {
+        let idx = paths.iter().position(|p| p.len() == 1 && p[0] == *t).unwrap();
+        let mut m = ModuleDef { name: t.to_string(), functions: vec![1 + idx], submodules: vec![], imports: vec![] };
+        if let Some(sub) = paths.iter().position(|p| p.len() == 2 && p[0] == *t) {
+            m.submodules.push(ModuleDef { name: "x".into(), functions: vec![1 + sub], submodules: vec![], imports: vec![] });
+        }
+        root.submodules.push(m);
+    }
+    // every function of a module has index 0 and its only card the path [0]; main's call is its card #1
+    let mut expected: Vec<Loc> = chain.iter().rev().map(|k| (paths[*k].clone(), 0usize, vec![0u32])).collect();
+    expected.push((vec![], 0, vec![1]));
+    ModPlan { program: Program { funcs, root, globals: vec!["sink_".into()] }, fault, expected }
+}
+
+fn run_mods(plan: &ModPlan, fp: u64) -> CaseOut {
+    let module = lower(&plan.program);
+    let labels = vec!["small_modules_family".to_string(), format!("mods_chain{}", plan.expected.len() - 1)];
+    let mk = |clause: &str, d: String| CaseOut {
+        verdict: Verdict::Fail(Failure::new(clause, &format!("c15:mods:{}", clause), d)),
+        nontrivial: false,
+        labels: vec![],
+        fingerprint: fp,
+        execs: 1,
+    };
+    let fmt = |l: &Loc| format!("{}#{}{:?}", l.0.join("."), l.1, l.2);
+    let all = |v: &[Loc]| v.iter().map(fmt).collect::<Vec<_>>();
+    let done = |labels: Vec<String>| CaseOut { verdict: Verdict::Pass, nontrivial: true, labels, fingerprint: fp, execs: 1 };
+    match compile(module.clone(), None) {
+        Err(e) => {
+            if plan.fault != 2 {
+                return mk("compiles", format!("{}", e));
+            }
+            let Some(loc) = &e.loc else { return mk("compile_error_has_location", format!("{}", e)) };
+            let got = loc_of(loc);
+            if got != plan.expected[0] {
+                return mk("compile_loc_is_planted_card", format!("loc {} expected {} ({})", fmt(&got), fmt(&plan.expected[0]), e.payload));
+            }
+            done(labels)
+        }
+        Ok(prog) => {
+            if plan.fault == 2 {
+                return mk("planted_compile_fault_detected", "module with an unresolvable call target compiled".into());
+            }
+            let obs = run_vm(&prog, &plan.program.globals, &RunCfg::default());
+            let kind_ok = match (&obs.outcome, plan.fault) {
+                (Err(k), 0) => k == "ProcedureNotFound",
+                (Err(k), _) => k.starts_with("VarNotFound"),
+                _ => false,
+            };
+            if !kind_ok {
+                return mk("planted_error_raised", format!("outcome {:?}", obs.outcome));
+            }
+            let got: Vec<Loc> = obs.trace.iter().map(loc_of).collect();
+            let n = plan.expected.len();
+            if !((got.len() == n || got.len() == n + 1) && got[..n] == plan.expected[..]) {
+                return mk("trace_is_call_chain", format!("trace {:?} expected {:?} (+ optional entry)", all(&got), all(&plan.expected)));
+            }
+            for l in &got[..n] {
+                if resolve(&module, l).is_none() {
+                    return mk("trace_entries_resolve", format!("{} does not resolve", fmt(l)));
+                }
+            }
+            done(labels)
+        }
+    }
+}
+
 enum CaseKind {
     Chain(Plan),
     Rec(RecPlan),
+    Mods(ModPlan),
 }
 
 const REC_SHARE: u32 = 80;
+const MODS_SHARE: u32 = 30;
 
 fn decode_case(bytes: &[u8]) -> CaseKind {
     let mut c = Choices::new(bytes);
     if c.chance(REC_SHARE) {
         CaseKind::Rec(decode_rec(&mut c))
+    } else if c.chance(MODS_SHARE) {
+        CaseKind::Mods(decode_mods(&mut c))
     } else {
         CaseKind::Chain(decode(bytes))
     }
@@ -446,6 +575,7 @@ fn decode_case(bytes: &[u8]) -> CaseKind {
 fn decode(bytes: &[u8]) -> Plan {
     let mut c = Choices::new(bytes);
     let _family = c.chance(REC_SHARE);
+    let _family2 = c.chance(MODS_SHARE);
     let chain_len = c.draw(5);
     let fault = c.draw(13);
     let wrap_depth = c.draw(3);
@@ -637,16 +767,25 @@ impl Property for C15 {
         true
     }
     fn describe(&self, bytes: &[u8]) -> J {
-        if let CaseKind::Rec(r) = decode_case(bytes) {
-            return json!({"family": "recursion", "fault": format!("{:?}", r.fault), "outer_chain": r.outer, "cycle": r.cycle, "bare_frames": r.bare, "program": program_json(&r.program)});
+        match decode_case(bytes) {
+            CaseKind::Rec(r) => return json!({"family": "recursion", "fault": format!("{:?}", r.fault), "outer_chain": r.outer, "cycle": r.cycle, "bare_frames": r.bare, "program": program_json(&r.program)}),
+            CaseKind::Mods(m) => return json!({"family": "small_modules", "fault": m.fault, "expected_trace": format!("{:?}", m.expected), "program": program_json(&m.program)}),
+            CaseKind::Chain(_) => {}
         }
         let p = decode(bytes);
         json!({"fault_kind": p.fault, "expected_error": p.expect_kind, "chain_len": p.chain_len, "wrap_depth": p.wrap_depth, "nest_depth": p.nest_depth, "program": program_json(&p.program)})
     }
     fn run(&self, bytes: &[u8], _tier: Tier) -> CaseOut {
-        if let CaseKind::Rec(r) = decode_case(bytes) {
-            let fp = fnv64(format!("{:?}", r).as_bytes());
-            return run_rec(&r, fp);
+        match decode_case(bytes) {
+            CaseKind::Rec(r) => {
+                let fp = fnv64(format!("{:?}", r).as_bytes());
+                return run_rec(&r, fp);
+            }
+            CaseKind::Mods(m) => {
+                let fp = fnv64(format!("{:?}", m).as_bytes());
+                return run_mods(&m, fp);
+            }
+            CaseKind::Chain(_) => {}
         }
         let plan = decode(bytes);
         let fp = fnv64(format!("{:?}", plan).as_bytes());
